@@ -103,8 +103,8 @@ theorem fmtX_eq (v : Nat) : Model.fmtX v = Spec.hexX v := by
 theorem fmt08X_eq (v : Nat) : Model.fmt08X v = Spec.hex08X v := by
   unfold Model.fmt08X Spec.hex08X; simp only [hexDigitsAux_eq]
 
-theorem formatLSN_eq (lsn : Nat) (h : lsn < 2 ^ 64) : Model.formatLSN lsn = Spec.lsnText lsn := by
-  unfold Model.formatLSN Spec.lsnText
+theorem ctlFormatLSN_eq (lsn : Nat) (h : lsn < 2 ^ 64) : Model.ctlFormatLSN lsn = Spec.lsnText lsn := by
+  unfold Model.ctlFormatLSN Spec.lsnText
   have h1 : (lsn >>> 32) % 2 ^ 32 = lsn / 2 ^ 32 := by
     rw [Nat.shiftRight_eq_div_pow]; omega
   have h2 : (lsn &&& 0xFFFFFFFF) % 2 ^ 32 = lsn % 2 ^ 32 := by
@@ -303,7 +303,7 @@ theorem parseControlFile_enc (c : ControlData) (h : c.WF) (crc pad : Nat) (hcrc 
   simp only [ok_bind]
   refine ⟨_, rfl, ?_⟩
   simp only [Model.ControlFile.toView, viewControl, toSigned_ofSigned32 _ hs1 hs2, toSigned_ofSigned64 _ ht1 ht2,
-    dbStateString_eq, formatLSN_eq _ hckpt, formatLSN_eq _ hredo, b2n_ne_zero, walLevel_name _ hwl,
+    dbStateString_eq, ctlFormatLSN_eq _ hckpt, ctlFormatLSN_eq _ hredo, b2n_ne_zero, walLevel_name _ hwl,
     toSigned32_nat _ hmc, toSigned32_nat _ hmw, toSigned32_nat _ hms, toSigned32_nat _ hmp, toSigned32_nat _ hml,
     verifyCRC32C_eq, Model.floatIs1234567, floatFormatBits]
 
